@@ -200,6 +200,31 @@ def check_proofs(pid):
     return res
 
 
+def coqchk(pid):
+    """thorough tier: re-check the compiled property module and everything it depends on with the
+    independent checker; the verdict is cached on the state of the compiled files"""
+    sig = hashlib.sha1()
+    for root, _, names in sorted(os.walk(COQ)):
+        for n in sorted(names):
+            if n.endswith('.vo'):
+                st = os.stat(os.path.join(root, n))
+                sig.update(('%s %d %d\n' % (os.path.join(root, n), st.st_size, int(st.st_mtime))).encode())
+    key = sig.hexdigest()
+    cache = os.path.join(RUN, 'coqchk_%s.json' % pid)
+    if os.path.exists(cache):
+        c = json.load(open(cache))
+        if c.get('key') == key:
+            return c
+    t0 = time.time()
+    rc, out = sh(['timeout', '3000', 'coqchk', '-silent', '-o', '-Q', COQ, 'LC', 'LC.Properties.' + pid], cwd=COQ, timeout=3100)
+    m = re.search(r'\* Axioms:(.*?)\n\s*\n', out, flags=re.S)
+    axioms = ' '.join(m.group(1).split()) if m else '?'
+    res = {'key': key, 'rc': rc, 'axioms': axioms, 'seconds': round(time.time() - t0, 1),
+           'ok': rc == 0 and axioms == '<none>', 'tail': out[-600:]}
+    json.dump(res, open(cache, 'w'))
+    return res
+
+
 # ---------------------------------------------------------------- case generation / evaluation
 _ISOLATE = None
 
@@ -362,6 +387,12 @@ def run_property(pid, tier, seed, replay_file=None):
     proofs = check_proofs(pid)
     d = os.path.join(RUN, pid)
     os.makedirs(d, exist_ok=True)
+    chk = None
+    if tier == 'thorough' and not replay_file and proofs['discharged'] == proofs['obligations'] and proofs['obligations']:
+        chk = coqchk(pid)
+        if not chk['ok']:
+            proofs['discharged'] = 0
+            proofs['error'] = 'coqchk: rc=%s axioms=%s %s' % (chk['rc'], chk['axioms'], chk['tail'])
 
     violations = []       # (replay path, text)
     known_seen = {}
@@ -546,6 +577,7 @@ def run_property(pid, tier, seed, replay_file=None):
             'known_finding_cases': known_seen,
             'search_cases': searched,
             'real_kernel_referee': referee,
+            'coqchk': chk and {k: chk[k] for k in ('ok', 'axioms', 'seconds')},
             'input_distribution': dict(sorted(hist.items())),
             'explanation': cfg.get('explanation', ''),
         },
